@@ -222,3 +222,20 @@ func specBfLimit(signed bool, dir int, bits int) int64 {
 	}
 	return int64(1)<<uint(bits) - 1
 }
+
+// BITPOS inside one byte (C18): the offset, counted from testBit downwards, of
+// the first bit of b between testBit and stopBit (both single bits, inclusive)
+// that equals want; -1 if there is none.
+func specFindInByte(b byte, want bool, testBit, stopBit uint8) int {
+	off := 0
+	for t := 0; t < 8; t++ {
+		m := uint8(0x80) >> uint(t)
+		if m <= testBit && m >= stopBit {
+			if ((b & m) > 0) == want {
+				return off
+			}
+			off++
+		}
+	}
+	return -1
+}
